@@ -15,10 +15,13 @@
   code, that a return value already in the return place is leaked when a parameter's destructor unwinds) and the
   behaviour of `HashMap` under a panicking `Hash`/`Eq` (lookup/remove leave the map unchanged; a failed insert leaves
   the new entry absent) — both are compared with the real code on every run (`abortcheck`: post-panic state and drop
-  log of every injection into a plain LRU). The composite caches are covered by the fault-injection runs.
+  log of every injection into a plain LRU). Third part (section `Composite`, model `Model/AbortG.lean`): the composite
+  caches with nodes in flight between lists — every operation from every invariant heap state, aborted at any user
+  call, keeps the heap invariant and never uses a node primitive outside its contract.
 -/
 import Caches.Lemmas.Abort
 import Caches.Lemmas.AbortOwn
+import Caches.Lemmas.AbortG
 set_option linter.unusedSectionVars false
 set_option linter.unusedVariables false
 namespace C18
@@ -496,5 +499,129 @@ example : Valid ({ chain := [], index := [], cap := 2, freed := [] } : W Nat Nat
     (inputsOf ([.put 1 10 100 .insertNew, .put 2 20 101 .done, .remove 2 .callback] : List (Call Nat Nat))).Nodup := by
   refine ⟨⟨by simp [Call.ok, ids], by simp [Call.ok, Call.next, Abort.put, PutFx.site, lookup, ids], trivial, trivial⟩, by decide⟩
 end Own
+
+
+/-! ### the composite caches: nodes in flight between lists while user code runs
+
+  Model `Model/AbortG.lean`: one heap of nodes shared by the lists of a cache, each node tagged with the list it is
+  linked in or `flight` (detached: referenced only by a local of the running operation, or leaked by an earlier
+  unwind); the crate-internal primitives check their own contract and raise the ghost flag `fault` (undefined
+  behaviour) when it is violated; a tick counter makes the `t`-th call into user code panic. `AG.Inv` is the weak
+  invariant over the whole heap: node ids distinct (so no node is in two lists, or in a list and owned by a frame),
+  every index entry of list `c` names a node linked in list `c` with that key, `fault = false`.
+  Every operation of SegmentedCache, TwoQueueCache, AdaptiveCache (and every public RawLRU operation on one of their
+  lists, which is all WTinyLFUCache uses), started in ANY invariant state — in particular one left behind by an earlier
+  panic — and aborted at ANY tick or completing, ends in an invariant state: no primitive is ever used outside its
+  contract (no node linked twice, none freed twice or while linked, no sentinel read as an entry). -/
+section Composite
+open M.AG
+
+/-- the operations (the `Bool`/payload results are irrelevant here) -/
+inductive COp (κ ν : Type)
+  | slruPut (k : κ) (v : ν) | slruGet (k : κ) | slruPutProtected (k : κ) (v : ν) | slruRemove (k : κ) | slruPurge
+  | twoqPut (q : TwoQ.Params) (k : κ) (v : ν) | twoqGet (k : κ) | twoqRemove (k : κ) | twoqPurge
+  | arcPut (size : Nat) (k : κ) (v : ν) | arcGet (k : κ) | arcRemove (k : κ) | arcPurge
+  -- public `RawLRU` calls on one list (accessors of the composites, the window of W-TinyLFU)
+  | rawPut (c : Nat) (k : κ) (v : ν) | rawGet (c : Nat) (k : κ) | rawRemove (c : Nat) (k : κ) | rawRemoveLru (c : Nat)
+  | rawPurge (c : Nat) | lookup (c : Nat) (k : κ)
+
+def COp.run : COp κ ν → Act κ ν Unit
+  | .slruPut k v => do let _ ← Slru.put k v
+  | .slruGet k => do let _ ← Slru.get k
+  | .slruPutProtected k v => do let _ ← Slru.putProtected k v
+  | .slruRemove k => do let _ ← Slru.remove k
+  | .slruPurge => Slru.purge
+  | .twoqPut q k v => do let _ ← TwoQ.put q k v
+  | .twoqGet k => do let _ ← TwoQ.get k
+  | .twoqRemove k => do let _ ← TwoQ.remove k
+  | .twoqPurge => TwoQ.purge
+  | .arcPut size k v => do let _ ← Arc.put size k v
+  | .arcGet k => do let _ ← Arc.get k
+  | .arcRemove k => do let _ ← Arc.remove k
+  | .arcPurge => Arc.purge
+  | .rawPut c k v => do let _ ← AG.rawPut c k v
+  | .rawGet c k => do let _ ← AG.rawGet c k
+  | .rawRemove c k => do let _ ← AG.rawRemove c k
+  | .rawRemoveLru c => do let _ ← AG.rawRemoveLru c
+  | .rawPurge c => AG.rawPurge c
+  | .lookup c k => do let _ ← AG.mapGet c k
+
+theorem voided {α : Type} {m : Act κ ν α} (h : Holds m (fun _ => True) (fun g _ g' => Std g g')) :
+    Holds (do let _ ← m : Act κ ν Unit) (fun _ => True) (fun g _ g' => Std g g') :=
+  Holds.intro fun g hI _ => Ok.bind (h.ok hI trivial) fun _ g1 hI1 h1 => Ok.pure hI1 h1
+
+/-- every operation, from every invariant state: invariant afterwards — whether it completed or was aborted — and
+    nodes owned by other frames (leaked by earlier unwinds) are left alone -/
+theorem composite_op_spec (op : COp κ ν) : Holds op.run (fun _ => True) (fun g _ g' => Std g g') := by
+  cases op with
+  | slruPut k v => exact voided (Slru.put_spec k v)
+  | slruGet k => exact voided (Slru.get_spec k)
+  | slruPutProtected k v => exact voided (Slru.putProtected_spec k v)
+  | slruRemove k => exact voided (Slru.remove_spec k)
+  | slruPurge => exact Slru.purge_spec
+  | twoqPut q k v => exact voided (TwoQ.put_spec q k v)
+  | twoqGet k => exact voided (TwoQ.get_spec k)
+  | twoqRemove k => exact voided (TwoQ.remove_spec k)
+  | twoqPurge => exact TwoQ.purge_spec
+  | arcPut size k v => exact voided (Arc.put_spec size k v)
+  | arcGet k => exact voided (Arc.get_spec k)
+  | arcRemove k => exact voided (Arc.remove_spec k)
+  | arcPurge => exact Arc.purge_spec
+  | rawPut c k v => exact voided (rawPut_spec c k v)
+  | rawGet c k => exact voided (rawGet_spec c k)
+  | rawRemove c k => exact voided (rawRemove_spec c k)
+  | rawRemoveLru c => exact voided (rawRemoveLru_spec c)
+  | rawPurge c => exact rawPurge_spec c
+  | lookup c k =>
+    exact voided (Holds.conseq (mapGet_spec c k) (fun _ _ _ => trivial)
+      (fun _ _ _ _ _ _ h => ⟨Keeps.of_pool h.1, h.2.2.1⟩))
+
+/-- the operation with the panic injected at the `t`-th call into user code (large `t`: it completes) -/
+def COp.runAt (op : COp κ ν) (t : Nat) (g : G κ ν) : G κ ν := (op.run { g with ticks := t }).2
+
+theorem composite_op_safe (op : COp κ ν) (t : Nat) (g : G κ ν) (h : AG.Inv g) :
+    AG.Inv (op.runAt t g) ∧ (op.runAt t g).fault = false := by
+  have h' : AG.Inv { g with ticks := t } := h.of_same rfl rfl rfl rfl rfl
+  have := (composite_op_spec op).ok h' trivial
+  exact ⟨this.1, this.1.nofault⟩
+
+/-- any history of operations, each with a panic injected at an arbitrary call into user code (or none): the
+    invariant holds throughout and no primitive is ever used outside its contract -/
+theorem composite_history_safe (ops : List (COp κ ν × Nat)) (g : G κ ν) (h : AG.Inv g) :
+    AG.Inv (ops.foldl (fun g o => o.1.runAt o.2 g) g) ∧ (ops.foldl (fun g o => o.1.runAt o.2 g) g).fault = false := by
+  induction ops generalizing g with
+  | nil => exact ⟨h, h.nofault⟩
+  | cons o os ih => exact ih _ (composite_op_safe o.1 o.2 g h).1
+
+/-- a freshly built cache: no nodes, empty indexes, every list with a positive capacity -/
+def emptyG (cap : Nat → Nat) : G κ ν :=
+  { pool := [], idx := fun _ => [], cap := cap, next := 0, ticks := 0, fault := false }
+
+theorem emptyG_inv (cap : Nat → Nat) (hc : ∀ c, 0 < cap c) : AG.Inv (emptyG cap : G κ ν) :=
+  ⟨by simp [emptyG], by simp [emptyG], by simp [emptyG], by simp [emptyG], hc, rfl⟩
+
+/-- what the invariant buys (1): a node is in at most one place — two lists never share a node, and a node owned by
+    a frame is in no list -/
+theorem node_in_one_place (g : G κ ν) (h : AG.Inv g) (i : Nat) (t t' : Tag) (h1 : Has g i t) (h2 : Has g i t') : t = t' :=
+  Has.tag_unique h h1 h2
+
+/-- what the invariant buys (2): every index entry points at a live node linked in its own list and carrying the
+    indexed key — no dangling `KeyRef`, no dangling node pointer -/
+theorem index_entries_live (g : G κ ν) (h : AG.Inv g) (c : Nat) (k : κ) (i : Nat) (hm : (k, i) ∈ g.idx c) :
+    ∃ e ∈ chain g c, e.id = i ∧ e.key = k := by
+  obtain ⟨e, he, ht, hid, hk⟩ := h.idx_in c k i hm
+  exact ⟨e, List.mem_filter.2 ⟨he, by simp [ht]⟩, hid, hk⟩
+
+/-- non-vacuity: a TwoQueueCache `put` into a full cache whose `recent.put_nonnull(new)` panics while hashing leaves
+    the new node linked in `recent` but not indexed, and the victim it had already taken out leaked in flight — a weak
+    state; the invariant holds there and the history goes on (the next `put` links a second node into `recent`) -/
+example :
+    let g0 : G Nat Nat := emptyG (fun _ => 1)
+    let ops : List (COp Nat Nat × Nat) :=
+      [(.twoqPut ⟨1, 1⟩ 1 10, 100), (.twoqPut ⟨1, 1⟩ 2 20, 4), (.twoqPut ⟨1, 1⟩ 3 30, 100)]
+    let g := ops.foldl (fun g o => o.1.runAt o.2 g) g0
+    g.fault = false ∧ (g.pool.map (·.id)).length = 3 := by
+  decide
+end Composite
 
 end C18
